@@ -276,7 +276,8 @@ class C19(Check):
                    "loc=min, scale=max-min, ...).  dnbinom's mean/size form is proved equal to the standard NB(n, p=size/(size+mu)) log-pmf via "
                    "log laws.  The seeded generators are run twice with the same integer seed against seed-keyed symbolic streams (un-seeded "
                    "sources are fresh streams) for seeds 0, 1, 12345 and 2^32-1 with an unseeded global draw in between: the draws must be equal terms.  "
-                   "When the solver separates a log form from the log of the plain form (equal over the reals), the replay also visits far-tail arguments.")
+                   "When the solver separates a log form from the log of the plain form (equal over the reals), the replay also visits far-tail arguments.  Every helper is called again on an array refilled in place by the caller (nothing about the "
+                   "earlier contents may be remembered) and must leave that array unchanged.")
     stubs = ["scipy.stats -> uninterpreted functions with scipy's signature normalisation", "np.random.RandomState(seed) -> stream keyed by seed", "gammaln -> lgamma UF"]
     assumptions = ["numerical values of scipy.stats (C/Fortran special functions) are not decided", "arguments in the support, valid parameters"]
 
